@@ -227,6 +227,33 @@ theorem getLast?_drop {α : Type} (l : List α) (n : Nat) (h : n < l.length) :
 /-- token lines do not decrease -/
 def SortedLines (ts : List Tok) : Prop := ts.Pairwise (fun a b => a.line ≤ b.line)
 
+/-- `SortedLines`, decidable -/
+def sortedLinesB : List Tok → Bool
+  | [] => true
+  | [_] => true
+  | a :: b :: r => decide (a.line ≤ b.line) && sortedLinesB (b :: r)
+
+theorem sortedLinesB_sound : ∀ (ts : List Tok), sortedLinesB ts = true → SortedLines ts := by
+  intro ts
+  induction ts with
+  | nil => intro _; exact List.Pairwise.nil
+  | cons a r ih =>
+    intro h
+    cases r with
+    | nil => exact List.pairwise_singleton _ _
+    | cons b r' =>
+      unfold sortedLinesB at h
+      rw [Bool.and_eq_true, decide_eq_true_eq] at h
+      have hr := ih h.2
+      unfold SortedLines at hr ⊢
+      rw [List.pairwise_cons]
+      refine ⟨?_, hr⟩
+      intro x hx
+      rcases List.mem_cons.mp hx with rfl | hx
+      · exact h.1
+      · rw [List.pairwise_cons] at hr
+        exact Nat.le_trans h.1 (hr.1 x hx)
+
 theorem getC_ge (comments : Array Bytes) (i : Nat) (h : comments.size ≤ i) : getC comments i = [] := by
   unfold getC
   have : comments[i]? = none := by simp; omega
@@ -456,28 +483,43 @@ theorem renderLoop_pieces (comments : Array Bytes) (hcm : wfComments comments) :
 theorem trailingComments_pieces (comments : Array Bytes) (hcm : wfComments comments) :
     ∀ (f : Nat) (s : RSt), ∃ ps : List Piece,
       (trailingComments comments f s).out = s.out ++ piecesBytes ps ∧
-      (∀ p ∈ ps, p.ok) ∧ ps.flatMap Piece.src = [] := by
+      (∀ p ∈ ps, p.ok) ∧ ps.flatMap Piece.src = [] ∧
+      (comments.size - s.commentLine ≤ f →
+        ps.flatMap Piece.srcItems = cmtRange (getC comments) s.commentLine (comments.size - s.commentLine)) := by
   intro f
   induction f with
-  | zero => intro s; exact ⟨[], by simp [trailingComments, piecesBytes], by simp, rfl⟩
+  | zero =>
+    intro s
+    refine ⟨[], by simp [trailingComments, piecesBytes], by simp, rfl, ?_⟩
+    intro h
+    have e : comments.size - s.commentLine = 0 := by omega
+    rw [e]; rfl
   | succ f ih =>
     intro s
     rw [trailingComments]
     split
-    · obtain ⟨com, hw, hct, _⟩ := commentText_shape comments hcm s.commentLine s.indent
+    · rename_i hlt
+      obtain ⟨com, hcom, hw, hct, _⟩ := commentText_shape comments hcm s.commentLine s.indent
       simp only
       rw [hct, commentText_isEmpty com hw]
+      have hrange : comments.size - s.commentLine = (comments.size - (s.commentLine + 1)) + 1 := by omega
       by_cases hc : com.isEmpty = true
       · simp only [hc, ↓reduceIte]
-        exact ih { s with commentLine := s.commentLine + 1 }
+        obtain ⟨ps, h1, h2, h3, h4⟩ := ih { s with commentLine := s.commentLine + 1 }
+        refine ⟨ps, h1, h2, h3, ?_⟩
+        intro hf
+        have g2 := h4 (by simp only; omega)
+        simp only at g2
+        rw [g2, hrange, cmtRange, ← hcom, hc]
+        simp
       · simp only [hc, Bool.false_eq_true, ↓reduceIte]
         have hne : com ≠ [] := by simpa using hc
-        obtain ⟨ps, h1, h2, h3⟩ := ih { s with
+        obtain ⟨ps, h1, h2, h3, h4⟩ := ih { s with
           out := s.out ++ (if s.commentLine > s.prevLine + 1 then [10] else []) ++
             (tabs s.indent ++ stripTrailingSpaces com) ++ [10],
           prevLine := s.commentLine, commentLine := s.commentLine + 1 }
         refine ⟨(if s.commentLine > s.prevLine + 1 then [Piece.blank] else []) ++
-          Piece.comment (4 * (s.indent : Int)).toNat com :: ps, ?_, ?_, ?_⟩
+          Piece.comment (4 * (s.indent : Int)).toNat com :: ps, ?_, ?_, ?_, ?_⟩
         · rw [h1]
           simp only [piecesBytes, List.flatMap_append, List.flatMap_cons, Piece.bytes, tabs_replicate]
           split <;> simp [Piece.bytes, List.append_assoc]
@@ -492,27 +534,44 @@ theorem trailingComments_pieces (comments : Array Bytes) (hcm : wfComments comme
             · exact h2 p hp
         · rw [List.flatMap_append, List.flatMap_cons, h3]
           split <;> simp [Piece.src]
-    · exact ⟨[], by simp [piecesBytes], by simp, rfl⟩
+        · intro hf
+          have g2 := h4 (by simp only; omega)
+          simp only at g2
+          have hb : List.flatMap Piece.srcItems (if s.commentLine > s.prevLine + 1 then [Piece.blank] else []) = [] := by
+            split <;> simp [Piece.srcItems, Piece.src, Piece.outComment]
+          have hse : (stripTrailingSpaces com).isEmpty = false := by rw [strip_isEmpty hw]; simpa using hc
+          rw [List.flatMap_append, List.flatMap_cons, hb, g2, hrange, cmtRange, ← hcom]
+          simp [Piece.srcItems, Piece.src, Piece.outComment, hse, hc]
+    · rename_i hge
+      refine ⟨[], by simp [piecesBytes], by simp, rfl, ?_⟩
+      intro _
+      have e : comments.size - s.commentLine = 0 := by omega
+      rw [e]; rfl
 
-/-- `Render`'s output is a list of well-formed pieces whose source tokens are the input tokens. -/
+/-- `Render`'s output is a list of well-formed pieces whose source tokens are the input tokens,
+and (for non-decreasing token lines) whose source items are the items of the input. -/
 theorem render_pieces (toks : List Tok) (comments : Array Bytes) (out : Bytes)
     (hwf : ∀ t ∈ toks, wfTok t = true) (hcm : wfComments comments)
     (hlines : linesOK (toks.length + 1) toks = true) (h : render toks comments = some out) :
-    ∃ ps : List Piece, out = piecesBytes ps ∧ (∀ p ∈ ps, p.ok) ∧ ps.flatMap Piece.src = toks := by
+    ∃ ps : List Piece, out = piecesBytes ps ∧ (∀ p ∈ ps, p.ok) ∧ ps.flatMap Piece.src = toks ∧
+      (SortedLines toks → items toks comments = ps.flatMap Piece.srcItems) := by
   unfold render at h
   split at h
   · rename_i he
-    simp only [Bool.and_eq_true, List.isEmpty_iff] at he
+    simp only [Bool.and_eq_true, List.isEmpty_iff, Array.isEmpty_iff] at he
     simp only [Option.some.injEq] at h
-    exact ⟨[], by rw [← h]; rfl, by simp, by simp [he.1]⟩
+    refine ⟨[], by rw [← h]; rfl, by simp, by simp [he.1], ?_⟩
+    intro _
+    rw [he.1, he.2]
+    rfl
   · simp only at h
     split at h
     · exact absurd h (by simp)
     · rename_i s hs
-      obtain ⟨ps1, h1, h2, h3⟩ := renderLoop_pieces comments hcm _ _ _ _ hs hwf hlines
-      obtain ⟨ps2, g1, g2, g3⟩ := trailingComments_pieces comments hcm (comments.size + 1) s
+      obtain ⟨ps1, h1, h2, h3, h4⟩ := renderLoop_pieces comments hcm _ _ _ _ hs hwf hlines
+      obtain ⟨ps2, g1, g2, g3, g4⟩ := trailingComments_pieces comments hcm (comments.size + 1) s
       simp only [Option.some.injEq] at h
-      refine ⟨ps1 ++ ps2, ?_, ?_, ?_⟩
+      refine ⟨ps1 ++ ps2, ?_, ?_, ?_, ?_⟩
       · rw [← h, g1, h1]
         simp [piecesBytes]
       · intro p hp
@@ -520,6 +579,10 @@ theorem render_pieces (toks : List Tok) (comments : Array Bytes) (out : Bytes)
         · exact h2 p hp
         · exact g2 p hp
       · rw [List.flatMap_append, h3, g3, List.append_nil]
+      · intro hsorted
+        unfold items
+        simp only at h4
+        rw [h4 hsorted (fun t _ => Nat.zero_le _), List.flatMap_append, g4 (by omega)]
 
 /-- every piece ends its line -/
 theorem pieces_length_le_newlines (ps : List Piece) : ps.length ≤ (piecesBytes ps).count 10 := by
